@@ -409,6 +409,20 @@ where
     }
 }
 
+#[cfg(nuts_rs_verif)]
+impl<M, R, A, T> MclmcChain<M, R, A, T>
+where
+    M: Math,
+    R: rand::Rng,
+    T: Transformation<M>,
+    A: AdaptStrategy<M, Hamiltonian = TransformedHamiltonian<M, T>>,
+{
+    /// Verification hook: read access to the adaptation strategy.
+    pub fn verif_strategy(&self) -> &A {
+        &self.adapt
+    }
+}
+
 // ── SamplerStats ──────────────────────────────────────────────────────────────
 
 impl<M, R, A, T> SamplerStats<M> for MclmcChain<M, R, A, T>
